@@ -27,6 +27,8 @@ def run(ctx):
     r1_same_predictor(ctx)
     r2_predictors(ctx)
     r3_misguided(ctx)
+    r4_lookup_totality(ctx)
+    r5_corral_brackets(ctx)
 
 
 def _single_return(fn):
@@ -98,6 +100,11 @@ def r2_predictors(ctx):
         ctx.ob("C16.R2", UTL, f"{cname}.score", c.methods["score"], "score is the PMF's entry at the action's position", sc is not None and unparse(sc) == sc_want,
                detail={"score": unparse(sc) if sc is not None else None})
         pr = c.methods["predict"]
+        if cname == "PMFInfoPredictor":
+            st = [x for x in walk_shallow(pr) if isinstance(x, ast.Assign) and isinstance(x.targets[0], ast.Tuple) and len(x.targets[0].elts) == 2]
+            if st:
+                from ..model import rename_copy
+                pr = rename_copy(pr, {unparse(st[0].targets[0].elts[0]): "pmf", unparse(st[0].targets[0].elts[1]): "info"})
         rets = [unparse(r.value) for r in walk_shallow(pr) if isinstance(r, ast.Return)]
         ok = rets == pr_want
         if cname == "PMFInfoPredictor":
@@ -129,7 +136,88 @@ def r3_misguided(ctx):
     ctx.ob("C16.R3", rel, "MisguidedLearner.learn", ln, "learn accepts arbitrary kwargs from the wrapped learner's predictions", ok, stmt="learn(**kwargs)")
 
 
+def r4_lookup_totality(ctx):
+    """a never-seen or disappearing action must not make predict/score raise: every statistic look-up keyed by an offered
+    action is total (defaultdict / .get) or sits in the branch where 'offered actions minus known keys' was tested empty."""
+    ctx.rule("C16.R4", "bandit learners: every self.<stat>[action] look-up for an offered action is total (defaultdict/.get) or guarded by the "
+                       "emptiness of set(actions) - self.<stat>.keys(); statistics of one learner are created together")
+    rel = "coba/learners/bandit.py"
+    n = 0
+    for c in ctx.model.classes:
+        if c.rel != rel or "_pmf" not in c.methods:
+            continue
+        init = c.methods.get("__init__")
+        kinds = {}
+        for x in walk_shallow(init):
+            if isinstance(x, (ast.Assign, ast.AnnAssign)):
+                t = x.targets[0] if isinstance(x, ast.Assign) else x.target
+                if is_self_attr(t) and x.value is not None:
+                    v = unparse(x.value)
+                    kinds[t.attr] = "defaultdict" if v.startswith("defaultdict(") else "dict" if v == "{}" else "other"
+        plain = {a for a, k in kinds.items() if k == "dict"}
+        helpers = {m for m in c.methods if m.startswith("_") and m not in ("__init__", "_pmf")}
+        pmf = c.methods["_pmf"]
+        # the guard: a local bound to set(actions) - self.<d>.keys()
+        guards = {}
+        for x in walk_shallow(pmf):
+            if isinstance(x, ast.Assign) and isinstance(x.targets[0], ast.Name) and isinstance(x.value, ast.BinOp) and isinstance(x.value.op, ast.Sub) \
+                    and unparse(x.value.left) == "set(actions)" and unparse(x.value.right).endswith(".keys()") and is_self_attr(x.value.right.func.value):
+                guards[x.targets[0].id] = x.value.right.func.value.attr
+        for x in walk_shallow(pmf):
+            sites = []
+            if isinstance(x, ast.Subscript) and is_self_attr(x.value) and x.value.attr in plain and isinstance(x.ctx, ast.Load):
+                sites.append((x, x.value.attr))
+            if isinstance(x, ast.Call) and isinstance(x.func, ast.Attribute) and is_self_attr(x.func) and x.func.attr in helpers:
+                hf = c.methods[x.func.attr]
+                for y in ast.walk(hf):
+                    if isinstance(y, ast.Subscript) and is_self_attr(y.value) and y.value.attr in plain and isinstance(y.ctx, ast.Load):
+                        sites.append((x, y.value.attr))
+                    if isinstance(y, ast.Call) and isinstance(y.func, ast.Attribute) and is_self_attr(y.func) and y.func.attr in helpers:
+                        for z in ast.walk(c.methods[y.func.attr]):
+                            if isinstance(z, ast.Subscript) and is_self_attr(z.value) and z.value.attr in plain and isinstance(z.ctx, ast.Load):
+                                sites.append((x, z.value.attr))
+            for node, attr in sites:
+                n += 1
+                ok = False
+                for t, pol in guards_of(enclosing_stmt(node), pmf):
+                    if isinstance(t, ast.Name) and t.id in guards and not pol:
+                        ok = True
+                ctx.ob("C16.R4", rel, f"{c.qual}._pmf", node, f"look-up of self.{attr}[<offered action>] happens only when every offered action is known", ok,
+                       detail={"guards": guards}, stmt=f"{c.name}: self.{attr}[...] via " + unparse(node)[:50])
+        # keys of the plain dicts are created together in learn (so the guard on one covers the others)
+        learn = c.methods.get("learn")
+        if plain and learn is not None:
+            blocks = {}
+            for x in walk_shallow(learn):
+                if isinstance(x, ast.Assign) and isinstance(x.targets[0], ast.Subscript) and is_self_attr(x.targets[0].value) and x.targets[0].value.attr in plain:
+                    g = tuple((unparse(t), p) for t, p in guards_of(x, learn))
+                    blocks.setdefault(g, set()).add(x.targets[0].value.attr)
+            creating = [v for g, v in blocks.items() if any("not in" in t and p for t, p in g)]
+            ctx.ob("C16.R4", rel, f"{c.qual}.learn", learn, "a new action gets an entry in every statistic at once", bool(creating) and creating[0] == plain,
+                   detail={"created_together": sorted(creating[0]) if creating else [], "statistics": sorted(plain)}, stmt=f"{c.name}: statistics created together")
+    ctx.floor("C16.R4", "statistic look-ups keyed by offered actions", n, 2)
+
+
+def r5_corral_brackets(ctx):
+    ctx.rule("C16.R5", "Corral's root search walks consecutive pairs of a SORTED bracket list (an unsorted list brackets the wrong root and yields weights outside (0,1))")
+    fn = ctx.fn("coba/learners/corral.py", "CorralLearner._log_barrier_omd")
+    pairs = [x for x in ast.walk(fn) if isinstance(x, ast.For) and isinstance(x.iter, ast.Call) and call_name(x.iter) == "zip" and len(x.iter.args) == 2
+             and isinstance(x.iter.args[0], ast.Subscript) and isinstance(x.iter.args[1], ast.Subscript) and unparse(x.iter.args[0].value) == unparse(x.iter.args[1].value)]
+    ctx.floor("C16.R5", "pairwise bracket walks", len(pairs), 1)
+    for lp in pairs:
+        nm = unparse(lp.iter.args[0].value)
+        f = enclosing_function(lp)
+        vals = assigned_value(f, nm) if f is not None else []
+        ok = bool(vals) and all("sorted(" in unparse(v) for v in vals)
+        ctx.ob("C16.R5", "coba/learners/corral.py", "CorralLearner._log_barrier_omd", lp, "the bracket list walked pairwise is sorted", ok, detail={"brackets": [unparse(v)[:120] for v in vals]})
+
+
 CONTROLS = [
+    ("ucb count instead of membership", "coba/learners/bandit.py", M.replace_stmt("BanditUCBLearner._pmf", M.text_has("if never_observed_actions"),
+        "if len(self._m) < len(actions):\n    max_actions = never_observed_actions\nelse:\n    values = [self._m[a] + self._Avg_R_UCB(a) for a in actions]\n    max_value = max(values)\n    max_actions = [a for a, v in zip(actions, values) if v == max_value]"), "C16.R4"),
+    ("corral unsorted brackets", "coba/learners/corral.py", M.replace_expr("CorralLearner._log_barrier_omd",
+        "list(sorted(filter(lambda z: min_loss <= z and z <= max_loss, set(denom_zeros + [min_loss, max_loss]))))",
+        "list(filter(lambda z: min_loss <= z and z <= max_loss, set(denom_zeros + [min_loss, max_loss])))"), "C16.R5"),
     ("score through second predictor", "coba/learners/bandit.py", M.chain(
         M.insert_after("BanditUCBLearner.__init__", M.simple_has("self._pred = PMFPredictor"), "self._pred2 = PMFPredictor(self._pmf, seed)"),
         M.replace_expr("BanditUCBLearner.score", "self._pred.score(context, actions, action)", "self._pred2.score(context, actions, action)")), "C16.R1"),
